@@ -1,0 +1,10 @@
+//go:build verif
+
+package local
+
+// C16: each message sent on the local channel gets a fresh sequence number.
+//@ func localChannel.nextSeqno
+//@   property C16
+//@   requires lc != nil && lc.counter < 18446744073709551615
+//@   modifies lc.counter
+//@   ensures [fresh-sequence-number] result == old(lc.counter) + 1 && lc.counter == result
